@@ -711,13 +711,13 @@ def _fuzz_job(job: Dict[str, Any]) -> Dict[str, Any]:
 
 
 # ------------------------------------------------------------------------------------------------- cfgs
-def cfg_enum(order_mode: str, bmenu: str, ns: str) -> str:
+def cfg_enum(order_mode: str, bmenu: str, ns: str, emit: bool = True) -> str:
     return f"""SPECIFICATION Spec
 CONSTANTS Source = "enum"
   OrderMode = "{order_mode}"
   BMenu = "{bmenu}"
   Ns = {ns}
-{MODEL_CONSTANTS}CONSTRAINT EmitTerminal
+{MODEL_CONSTANTS}{"CONSTRAINT EmitTerminal" if emit else ""}
 INVARIANT AlwaysResultOrKF
 INVARIANT FallbackCompleteOrKF
 INVARIANT ReportedWhenFailed
@@ -793,8 +793,17 @@ def run(ctx: Ctx) -> int:
         baseline_x[fmt] = t["xhtml"]
 
     # ================================================================= spec -> code : every fault combination, injected
-    r = ctx.tlc("Docstring", cfg_enum("Bfixed" if ctx.quick else "all", "tiny" if ctx.quick else "small", "{1}" if ctx.quick else "{1, 2}"), workers="auto", check=False,
-                coverage=False, timeout=1500, java_opts=["-Xmx6g"])
+    r = ctx.tlc("Docstring", cfg_enum("Bfixed", "tiny" if ctx.quick else "small", "{1}" if ctx.quick else "{1, 2}"),
+                workers="auto", check=False, coverage=False, timeout=1500, java_opts=["-Xmx6g"])
+    if not ctx.quick:
+        # every interleaving of the six calls, invariants only (nothing printed: ~10^6 behaviours)
+        r_all = ctx.tlc("Docstring", cfg_enum("all", "small", "{1, 2}", emit=False), workers="auto", check=False,
+                        timeout=3000, java_opts=["-Xmx8g"])
+        hard_all = [e for e in r_all.errors if "behavior up to this point" not in e]
+        if hard_all or (r_all.rc != 0 and not r_all.violated):
+            raise MachineryError(f"Docstring(enum, all orders): TLC failed rc={r_all.rc} {hard_all[:3]}")
+        ctx.extra["all_interleavings_invariants_violated"] = list(r_all.violated)
+        ctx.extra["all_interleavings_states"] = r_all.distinct
     hard = [e for e in r.errors if "behavior up to this point" not in e]
     if hard or (r.rc != 0 and not r.violated):
         raise MachineryError(f"Docstring(enum): TLC failed rc={r.rc} {hard[:3]}\n" + "\n".join(r.out.splitlines()[-25:]))
